@@ -65,5 +65,13 @@ mutants)
   done < mutants/EXPECT.tsv
   [ $BAD = 0 ] && echo "mutants: every expectation met (X = reported, . = silent, 2 = harness error, ! = unexpected)" || { echo "mutants: expectations NOT met"; exit 1; }
   ;;
-*) echo "usage: selftest.sh determinism | mutants [name-pattern]"; exit 2;;
+miri)
+  # the one mutant only Miri's race detector can see: unsafe impl Sync over a Cell touched by every evaluation
+  git -C /repo apply "$PWD/mutants/c18_unsafe_sync_cell_counter.diff" || exit 2
+  ( cd sim/c18_miri && MIRIFLAGS="-Zmiri-many-seeds=0..16 -Zmiri-preemption-rate=0.1" cargo +nightly miri run --offline ) > target/selftest_miri.log 2>&1
+  RC=$?
+  git -C /repo checkout -- .
+  if [ $RC != 0 ] && grep -q "Data race detected" target/selftest_miri.log; then echo "miri: data race reported for c18_unsafe_sync_cell_counter (expected)"; else echo "miri: mutant NOT reported"; exit 1; fi
+  ;;
+*) echo "usage: selftest.sh determinism | mutants [name-pattern] | miri"; exit 2;;
 esac
